@@ -54,7 +54,7 @@ def run_case_in(wt, case):
     """one case in a scratch worktree of /repo (parallel mode): the checks read that tree through CVA_REPO and write
     their evidence to a throw-away directory"""
     name, patch, exp = case
-    sh("git -C %s checkout -q -- ." % wt)
+    sh("git -C %s checkout -q -- . && git -C %s clean -fdq" % (wt, wt))          # (a refactor may add files)
     if patch and sh("git -C %s apply %s" % (wt, patch)).returncode != 0:
         return name, exp, None
     ids = ALL if exp == "SILENT" else [exp]
